@@ -431,6 +431,7 @@ func (e *Explorer) Explore() *Stats {
 	locals := make([]*localStats, nw)
 	var violMu sync.Mutex
 	violSeen := map[string]bool{}
+	violClass := map[string]int{}
 	var wg sync.WaitGroup
 	for w := 0; w < nw; w++ {
 		wg.Add(1)
@@ -477,8 +478,9 @@ func (e *Explorer) Explore() *Stats {
 					violMu.Lock()
 					for _, v := range c.viol {
 						st.NViolations++
-						if !violSeen[v.Key] && len(st.Violations) < 200 {
+						if !violSeen[v.Key] && len(st.Violations) < 400 && violClass[v.What] < 25 {
 							violSeen[v.Key] = true
+							violClass[v.What]++
 							v.Vector = c.Vector()
 							v.Labels = c.labels()
 							v.Harness = h.Name
